@@ -456,14 +456,14 @@ UNION_OPERANDS = {
     "ref_obj": {"$ref": "#/definitions/XObj"}, "ref_str": {"$ref": "#/definitions/XLabel"},
     # operands that reach the other arms of schemas_mutually_exclusive: untyped enums, type lists, allOf / not wrappers
     "enum_int_untyped": {"enum": [1, 2]}, "str_or_null": {"type": ["string", "null"]}, "int_or_bool": {"type": ["integer", "boolean"]},
-    "allof_str": {"allOf": [{"type": "string"}, {"maxLength": 3}]}, "const_a": {"const": "a"},
-}
+    "allof_str": {"allOf": [{"type": "string"}, {"maxLength": 3}]},
+}   # ({"const": "a"} is not an operand: typify documents that it ignores const, so every union with it is non-exclusive by construction)
 UNION_QUICK = ["null", "int", "str", "enum_ab", "vec_int", "arr13_str", "arr13_int", "tuple_is", "obj_p", "ref_str", "enum_int_untyped", "str_or_null"]
 _UNION_DEFS = {"XObj": obj({"s": STR, "n": INT}, ["s"]), "XLabel": {"type": "string"}}
 _JTYPE = {"null": "null", "bool": "boolean", "int": "number", "num": "number", "str": "string", "str_max2": "string", "enum_ab": "string",
           "vec_int": "array", "vec_str": "array", "arr13_str": "array", "arr13_int": "array", "arr2_int": "array", "tuple_is": "array",
           "obj_p": "object", "obj_q_open": "object", "map_int": "object", "ref_obj": "object", "ref_str": "string",
-          "enum_int_untyped": "number", "str_or_null": "string|null", "int_or_bool": "number|boolean", "allof_str": "string", "const_a": "string"}
+          "enum_int_untyped": "number", "str_or_null": "string|null", "int_or_bool": "number|boolean", "allof_str": "string"}
 
 
 _MINI = [None, True, 0, 1, 2, 3, 1.5, "", "a", "abc", "0b9f1c1e-2d3a-4b5c-8d7e-6f5a4b3c2d1e", [], [1], [1, 2], [1, 2, 3, 4], ["a"], [1, "a"], ["a", "b"],
@@ -487,7 +487,7 @@ def union_family(tier):
                     continue
                 disjoint = _JTYPE[a] != _JTYPE[b]
                 overlap = _overlap(UNION_OPERANDS[a], UNION_OPERANDS[b])
-                enf_ops = all(x not in ("map_int", "obj_q_open", "ref_obj", "arr13_str", "arr13_int", "const_a") for x in (a, b))
+                enf_ops = all(x not in ("map_int", "obj_q_open", "ref_obj", "arr13_str", "arr13_int") for x in (a, b))
                 sh = L("%s[%s,%s]" % (comb, a, b), {comb: [copy.deepcopy(UNION_OPERANDS[a]), copy.deepcopy(UNION_OPERANDS[b])]},
                        ff=True, enf=enf_ops and (comb == "anyOf" or not overlap), fam=True,
                        defs={k: v for k, v in _UNION_DEFS.items() if ("ref_obj" in (a, b) and k == "XObj") or ("ref_str" in (a, b) and k == "XLabel")})
